@@ -683,7 +683,9 @@ func TestCheck(t *testing.T) {
 		r.Finish()
 	}
 	if _, child := runner.IsShard(); !child && runner.ReplayPath() == "" {
-		// the transport jobs come last and take the places of the HTTP jobs as these finish (their budget runs from their own start)
+		// the transport jobs come last and take the places of the HTTP jobs as these finish; their own budget runs from
+		// their start, but none runs past the end of the HTTP part
+		os.Setenv(xportEndEnv, fmt.Sprint(time.Now().Add(budget+10*time.Second).UnixNano()))
 		r.RunJobs(njobs+len(xjobs(backends)), 30, budget+3*time.Minute)
 	}
 	schedPart(r, t)
